@@ -288,13 +288,19 @@ func (x *c10World) able(nd *Node, h uint32) bool {
 }
 
 // refeed gives a restarted validator the main-chain blocks above its stable block again.
-func (x *c10World) refeed(nd *Node) {
+func (x *c10World) refeed(nd *Node, who string) bool {
 	st := nd.BC.StableBlock().Height()
 	for _, ob := range x.fed {
 		if ob.Height() > st {
-			nd.InsertBlock(wireCopyBlock(ob))
+			if _, err := nd.InsertBlock(wireCopyBlock(ob)); err == nil {
+				// the list of a re-fed block is rebuilt on top of the restarted stable block
+				if !x.checkTop(who, nd.Tag, nd.DB, ob) {
+					return false
+				}
+			}
 		}
 	}
+	return true
 }
 
 func c10Params(c *Ctx) ChainParams {
@@ -402,8 +408,7 @@ func c10Chain(c *Ctx) {
 					if !x.checkTop(who, nd.Tag, nd.DB, nd.BC.StableBlock()) {
 						return false
 					}
-					x.refeed(nd)
-					if x.livePanic("re-feeding a restarted validator") {
+					if !x.refeed(nd, who) || x.livePanic("re-feeding a restarted validator") {
 						return false
 					}
 				}
@@ -473,8 +478,11 @@ func c10Chain(c *Ctx) {
 									return false
 								}
 								x.fed = append(x.fed, blk)
-								x.refeed(nd)
+								ok := x.refeed(nd, who)
 								x.fed = x.fed[:len(x.fed)-1]
+								if !ok {
+									return false
+								}
 							}
 						}
 						if x.livePanic("inserting confirmations into " + who) {
